@@ -113,3 +113,47 @@ def replay_transaction(w, rec):
 REPLAYS = {
   'SocketTransportSink._AsyncProcessTransaction': replay_transaction,
 }
+
+
+def replay_deserialize(w, rec):
+  """A void method's reply (an empty result struct) must map to return value None and no error."""
+  import sys, types
+  from thrift.protocol.TBinaryProtocol import TBinaryProtocolFactory
+  from thrift.transport.TTransport import TMemoryBuffer
+  from thrift.Thrift import TMessageType, TType
+  from scales.compat import BytesIO
+  from scales.thrift.serializer import MessageSerializer
+  mod = types.ModuleType('replay_void_service')
+  class Iface(object):
+    def ping(self): pass
+  Iface.__module__ = 'replay_void_service'
+  class ping_args(object):
+    thrift_spec = ()
+    def write(self, oprot):
+      oprot.writeStructBegin('ping_args'); oprot.writeFieldStop(); oprot.writeStructEnd()
+  class ping_result(object):
+    thrift_spec = ()
+    def read(self, iprot):
+      iprot.readStructBegin()
+      while True:
+        (fname, ftype, fid) = iprot.readFieldBegin()
+        if ftype == TType.STOP:
+          break
+        iprot.skip(ftype)
+        iprot.readFieldEnd()
+      iprot.readStructEnd()
+  mod.Iface, mod.ping_args, mod.ping_result = Iface, ping_args, ping_result
+  sys.modules['replay_void_service'] = mod
+  ser = MessageSerializer(Iface, TBinaryProtocolFactory())
+  tb = TMemoryBuffer()
+  p = TBinaryProtocolFactory().getProtocol(tb)
+  p.writeMessageBegin('ping', TMessageType.REPLY, 0)
+  p.writeStructBegin('ping_result'); p.writeFieldStop(); p.writeStructEnd()
+  p.writeMessageEnd()
+  reply = tb.getvalue()
+  msg = ser.DeserializeThriftCall(BytesIO(reply))
+  text = 'reply of void method ping() (empty result struct): return_value=%r error=%r' % (msg.return_value, msg.error)
+  return (msg.return_value is not None or msg.error is not None), text
+
+
+REPLAYS['MessageSerializer.DeserializeThriftCall'] = replay_deserialize
